@@ -1,0 +1,24 @@
+//! Verification hooks (cargo feature `verif-hooks`, off by default).
+//!
+//! Thin `pub` wrappers around `pub(crate)` kernels so that out-of-tree
+//! harnesses can drive them. No logic of its own lives here.
+#![allow(missing_docs, missing_debug_implementations, dead_code, clippy::all)]
+
+pub type MediaQuery = crate::ast::MediaQuery;
+
+/// Result of [`media_merge`], mirroring `MediaQueryMergeResult`.
+#[derive(Debug, Clone, PartialEq, Eq)]
+pub enum MergeResult {
+    Empty,
+    Unrepresentable,
+    Success(MediaQuery),
+}
+
+pub fn media_merge(a: &MediaQuery, b: &MediaQuery) -> MergeResult {
+    use crate::ast::MediaQueryMergeResult as R;
+    match a.merge(b) {
+        R::Empty => MergeResult::Empty,
+        R::Unrepresentable => MergeResult::Unrepresentable,
+        R::Success(q) => MergeResult::Success(q),
+    }
+}
